@@ -539,6 +539,7 @@ def run(tier):
                      "standard start); FEN fields 0..5 feed placement, side, castling, en passant, clock, move number with defaults \"0\"/\"1\"; K/Q/k/q grant exactly their right after a reset; 'w'/'b' and the "
                      "en-passant letter are decoded by the standard; the synthetic history record carries rights, clock and - with an en-passant square - the double-push flag on that file, which is what "
                      "make/unmake read back (so the loaded position behaves like one reached by play); build copies every field and computes the key last. Not decided: the rank/file arithmetic of the "
-                     "placement mask and digit skipping (value-level)."),
+                     "placement mask and digit skipping (value-level). Frame clauses: in from_fen the builder passes through the six parsers, history() and build() and nothing else, the result of build() is "
+                     "returned unchanged, and which synthetic record history() builds depends on nothing but `en_passant_file is Some`."),
         assumptions=["the placement mask arithmetic `1 << (8*(7 - idx/8) + idx%8)` and digit skipping are right (not decided)"],
         tier=tier)
